@@ -1,5 +1,6 @@
 import Qryn.LogQL.SemStages
 import Qryn.Read.JsonPathSyntax
+import Qryn.Read.InternalAggPlan
 import Driver.C07
 import Std.Data.HashMap
 /-! Line protocol for C09. Ops:
@@ -67,7 +68,7 @@ def floatOps : NumOps Float where
   eq a b := a == b
   ofNat := Float.ofNat
   parse := parseFloat
-  durSeconds d := Float.ofInt (d.tdiv 1000000) / 1000.0
+  durSeconds d := Float.ofInt d / 1000000000.0   -- float64(Duration.Nanoseconds()) / 1e9 (since the fix of the ms truncation)
 
 /-! ### RE2 subset -/
 inductive Re
@@ -304,7 +305,7 @@ def plan? (st agg aggBy aggCmp vec : String) : Option (Plan Float) := do
     | _ => none
   let v ← if vec = "-" then some none else
     match vec.splitOn "/" with
-    | [fn, bw, c] => do some (some (← vecFn? fn, ← byWithout? bw, ← cmp? c))
+    | [fn, bw, c] => do some (some (← vecFn? fn, planVecGrouping (← byWithout? bw), ← cmp? c))
     | _ => none
   some ⟨stages, a, ← byWithout? aggBy, ← cmp? aggCmp, v⟩
 
@@ -368,7 +369,7 @@ def needs (E : Env Float) (t : Tables) (ss : List (StageK Float)) (bs : Batches 
     | _ => [])
 
 /-! ### canonical output -/
-def floatText (x : Float) : String := if x.isNaN then "nan" else toString x.toBits
+def floatText (x : Float) : String := if x.isNaN then "nan" else if x == 0.0 then "0" else toString x.toBits   -- the sign of a zero is not compared (c9FloatText)
 
 def labelsText (l : Labels) : String :=
   if l.isEmpty then "-" else "&".intercalate ((sortLabels l).map (fun kv => hexOut kv.1 ++ "=" ++ hexOut kv.2))
